@@ -77,7 +77,7 @@ def cases(tier, seed):
         for mem in (8, 16):
             unit = mem // 8
             # frame lengths around the capacity
-            for B in [Fz + 1, Fz + 2] + list(range(Fz + 11, Fz + 18)) + [100, 128, 200]:
+            for B in [1, 8, Fz - 1, Fz, Fz + 1, Fz + 2] + list(range(Fz + 11, Fz + 18)) + [100, 128, 200]:
                 ops = [R.cfg(mem, ep, B), "rp.backend 0 0 9"]
                 cap = B - Fz
                 for n in sorted(set(list(range(0, 21)) + list(range(max(0, cap - 3), cap + 4)))):
@@ -162,7 +162,7 @@ def cases(tier, seed):
         serial = ep == "serial"
         per = 40
         for block in range((200 if quick else 3000) // per):
-            B = rnd.choice([Fz + 1, Fz + 13, Fz + 17, 100, 128, 128, 200])
+            B = rnd.choice([3, Fz - 7, Fz, Fz + 1, Fz + 13, Fz + 17, 100, 128, 128, 200])
             mem = rnd.choice([8, 16])
             ops = [R.cfg(mem, ep, B)]
             for _ in range(per):
